@@ -295,6 +295,98 @@ def body_large(ctx):
     _judge(ctx, fbs, [], {'first': d1, 'between': '%d x %r' % (n, fill), 'last': d2, 'suppressions': []})
 
 
+SEC_ALPHA = [dict(category='instructor'), dict(category='instructor', priority='high'), dict(category='instructor', priority='low'),
+             dict(category='syntax'), dict(category='specification'), dict(category='runtime', muted=True),
+             dict(category='mistakes', activate=False), dict(via='compliment')]
+PARENTS = [None, 'part1', 'part2']
+
+
+def body_sectional(ctx):
+    """The sectional resolver: the feedbacks of every group (parent), in whatever order the groups' feedbacks were
+    created, are resolved like a report of their own."""
+    from pedal.resolvers import sectional
+    n = ctx.choose(4, 'n') + 1
+    ds = []
+    for k in range(n):
+        d = dict(SEC_ALPHA[ctx.choose(len(SEC_ALPHA), 'fb%d' % k)])
+        par = PARENTS[ctx.choose(len(PARENTS), 'parent%d' % k)]
+        if par is not None:
+            d['parent'] = par
+        ds.append(d)
+    cmds.clear_report()
+    fbs = []
+    for k, d in enumerate(ds):
+        ctx.step(('create', d))
+        fb = _mk(d, k)
+        if getattr(fb, '_verif_req', None):
+            fb._verif_req.pop('parent', None)
+        fbs.append(fb)
+    case = {'feedbacks': ds, 'suppressions': []}
+    canon = repr(ds)
+    ctx.observe(canon)
+    ctx.set_sample(case)
+    groups = []
+    for d in ds:
+        if d.get('parent') not in groups:
+            groups.append(d.get('parent'))
+    if len(groups) > 1 and [d.get('parent') for d in ds] != sorted([d.get('parent') for d in ds], key=groups.index):
+        ctx.mark_nontrivial(canon)          # the groups' feedbacks are interleaved
+    ctx.step('sectional.resolve')
+    try:
+        finals = sectional.resolve()
+    except Exception as e:
+        ctx.fail({'symptom': 'resolve raised', 'exception': type(e).__name__, 'at': 'sectional'}, case=case, message=str(e)[:200])
+        return
+    for g in groups:
+        mine = [f for f, d in zip(fbs, ds) if d.get('parent') == g and f in MAIN_REPORT.feedback]
+        exp = ref.reference(mine, [])
+        if exp is None:
+            ctx.abstain()
+            continue
+        if g not in finals:
+            if mine:
+                ctx.fail({'symptom': 'a group of feedbacks has no result of the sectional resolver'}, case=case, group=g)
+            continue
+        r = finals[g]
+        got = dict(label=r.label, title=r.title, message=r.message, category=r.category)
+        if exp['default']:
+            want = dict(label='set_correct_no_errors', title='Complete', message='Great work!', category='complete')
+        else:
+            want = {k: exp[k] for k in ('label', 'title', 'message', 'category')}
+        if got != want:
+            ctx.fail({'symptom': 'wrong feedback delivered', 'why': 'sectional resolver, group of the feedback'}, case=case,
+                     group=g, expected=want, got=got)
+    ctx.outcome('sectional-%d-groups' % len(groups))
+
+
+POOL_PRIOS = ['high', 'low', 'highest', None]
+
+
+def body_pools(ctx):
+    """A/B pools: the chosen arm overrides attributes of every feedback (here: the priority of all of them); what
+    is shown is decided with the attributes the feedbacks carry once the arm is applied."""
+    from pedal.core.feedback import Feedback as FB
+    d1 = dict(LARGE_RANKS[ctx.choose(len(LARGE_RANKS), 'first')])
+    d2 = dict(LARGE_RANKS[ctx.choose(len(LARGE_RANKS), 'second')])
+    pp = POOL_PRIOS[ctx.choose(len(POOL_PRIOS), 'arm-priority')]
+    cmds.clear_report()
+    saved = dict(FB._pools)
+    try:
+        cmds.set_pools(['arm'])
+        if pp is not None:
+            FB.override_for_pool('arm', priority=pp)
+        ctx.step(('pool arm priority', pp))
+        fbs = [_mk(d1, 0), _mk(d2, 1)]
+        if pp is not None:
+            for f in fbs:
+                f._verif_req['priority'] = pp        # what the arm asks for wins over what the call asked for
+        _judge(ctx, fbs, [], {'feedbacks': [d1, d2], 'pool_priority': pp, 'suppressions': []})
+    finally:
+        FB._pools.clear()
+        FB._pools.update(saved)
+        MAIN_REPORT.set_pools([])
+
+
 def body_category_suppression(ctx):
     """One feedback of every category against a suppression of every category name (and every documented alias):
     exactly the feedback of that category is hidden."""
@@ -391,6 +483,10 @@ def phases(tier):
               describe='all creation sequences x suppression sets x placement'),
         Phase('category-suppression', body_category_suppression, setup=_setup,
               describe='feedback of every category pair x suppression of every category name and alias'),
+        Phase('sectional', body_sectional, setup=_setup,
+              describe='sectional resolver: <=4 feedbacks over 8 descriptors x 3 groups (parents) in every creation order'),
+        Phase('pools', body_pools, setup=_setup,
+              describe='an A/B arm that overrides the priority of every feedback: ordered pairs over 8 ranks x 4 arm priorities'),
         Phase('large-reports', body_large, setup=_setup, chunk=20,
               describe='two ranked feedbacks with 19..130 other feedbacks created between them'),
         Phase('own-report', make_private_report(alpha), setup=_setup,
